@@ -48,6 +48,20 @@ def o_tx_wire(case):
     ref = refser.ser_tx(m)
     ref_legacy = refser.ser_tx_legacy(m)
     shape = _shape(m)
+    # some other object of the process has been filled in place beforehand (an input's witness stack grown with append, a
+    # transaction's unspents list extended): what this transaction serialises to must not depend on it
+    other_in = Tx.TxIn(b"\x07" * 32, 7, b"", 7)
+    other_in.witness.append(b"\x07other")
+    other_tx = Tx(1, [Tx.TxIn(b"\x08" * 32, 8, b"", 8)], [Tx.TxOut(8, b"\x51")])
+    other_tx.unspents.append(Tx.TxOut(9, b"\x52"))
+    try:
+        return _o_tx_wire(case, Tx, m, ref, ref_legacy, shape)
+    finally:
+        del other_in.witness[:]
+        del other_tx.unspents[:]
+
+
+def _o_tx_wire(case, Tx, m, ref, ref_legacy, shape):
     tx = to_pycoin(Tx, m)
 
     got = tx.as_bin()
